@@ -38,4 +38,26 @@ theorem field_nameRaw (st : Style) (env : PEnv) (n : Name) (hw : WfName n) (ho :
   simp only [nameBack, orOrigin, chooseRelativity] at this
   simp [parseField, this]
 
+/-! ### GPOS coordinates -/
+
+theorem gposCheck_plain (lim : Option (Nat × Nat)) (s : Bytes) (h : gposCheck lim s = true) : Plain s ∧ s ≠ [] := by
+  unfold gposCheck at h
+  simp only [Bool.and_eq_true] at h
+  obtain ⟨hall, hf⟩ := h
+  constructor
+  · intro c hc
+    have := List.all_eq_true.mp hall c hc
+    simp only [isDigit, Bool.or_eq_true, decide_eq_true_eq, beq_iff_eq] at this
+    simp [isDelim]
+    omega
+  · intro e; subst e
+    simp [floatStr] at hf
+
+theorem field_gpos (st : Style) (env : PEnv) (lim : Option (Nat × Nat)) (s : Bytes) (hl : s.length ≤ 255)
+    (h : gposCheck lim s = true) : FieldRT st env (.gpos lim) (.b s) s ⟨.ident, s⟩ := by
+  obtain ⟨hp, hne⟩ := gposCheck_plain lim s h
+  refine ⟨rfl, lexes_plain _ hne hp, ?_, notHash_plain _ hp⟩
+  have hle : ¬ s.length > 255 := by omega
+  simp [parseField, parseFieldExtra, unescapeCP_plain_all _ hp, hle, h]
+
 end Model
